@@ -199,6 +199,9 @@ class TermCx:
                 return ("cast", fr, to, args[0])
             if len(st) == 2 and st[0] == st[1]:
                 return args[0]
+        if name == "box_assume_init_into_vec_unsafe" and term["args"]:
+            # vec![a, b, ..]: the elements are written through a raw pointer into the uninitialised box
+            return ("vec", self.box_contents(term["args"][0]))
         # inline small branch-free workspace wrappers
         if self.inline and self.depth < INLINE_DEPTH:
             fs = self.prog.resolve_call(ci, generic_join=False)
@@ -208,6 +211,56 @@ class TermCx:
                 cx = TermCx(self.prog, f, sub, self.depth + 1)
                 return cx.local(0)
         return ("call", path, args, site, ci.get("self_ty") if tr else None)
+
+
+def _box_contents(self, op):
+    p = op.get("move") or op.get("copy")
+    if p is None:
+        return ()
+    root = p["l"]
+    # locals that are pointers derived from the box
+    alias = {root}
+    changed = True
+    defs = self.fn.defs()
+    # backwards: the box may have been moved through temporaries
+    todo = [root]
+    while todo:
+        l = todo.pop()
+        for d in defs.get(l, []):
+            if d[0] == "assign" and d[3]["k"] == "use":
+                o = d[3]["op"]
+                src = o.get("copy") or o.get("move")
+                if src is not None and not src["p"] and src["l"] not in alias:
+                    alias.add(src["l"])
+                    todo.append(src["l"])
+    while changed:
+        changed = False
+        for l, ds in defs.items():
+            if l in alias:
+                continue
+            for d in ds:
+                if d[0] != "assign":
+                    continue
+                rv = d[3]
+                src = None
+                if rv["k"] in ("use", "cast"):
+                    o = rv["op"]
+                    src = o.get("copy") or o.get("move")
+                elif rv["k"] in ("ref", "rawptr"):
+                    src = rv["place"]
+                if src is not None and src["l"] in alias:
+                    alias.add(l)
+                    changed = True
+                    break
+    out = []
+    for l in sorted(alias):
+        for d in defs.get(l, []):
+            if d[0] == "partial" and any(e == "*" for e in d[3]["place"]["p"]):
+                out.append(self.rvalue(d[3]["rv"], (self.fn.key, d[1], d[2])))
+    return tuple(out)
+
+
+TermCx.box_contents = _box_contents
 
 
 def proj_key(p):
@@ -309,7 +362,7 @@ def subterms(t):
                                         yield from subterms(z)
 
 
-_HEADS = {"arg", "const", "fnref", "field", "variant", "index", "cindex", "subslice", "proj", "loopvar", "updated",
+_HEADS = {"vec", "arg", "const", "fnref", "field", "variant", "index", "cindex", "subslice", "proj", "loopvar", "updated",
           "uninit", "phi", "cast", "bin", "un", "len", "discr", "agg", "closure", "repeat", "unknown", "callind",
           "iter", "try", "residual", "ok_or", "map_err", "call", "some", "ok", "errval"}
 
@@ -393,6 +446,8 @@ def fmt(t, depth=0):
         return "%s with {%s}" % (f(t[1]), ", ".join("%s: %s" % (".".join(k), f(v)) for k, v in t[2]))
     if h == "fnref":
         return short(t[1])
+    if h == "vec":
+        return "vec![%s]" % ", ".join(f(x) for x in t[1])
     if h == "loopvar":
         return "loopvar_%d" % t[2]
     return h + "(…)"
